@@ -96,7 +96,7 @@ static void ntop_at(int af, const void *addr, const char *full, int flen, int le
 
 static void item_ntop4(uint64_t idx)
 {
-	int bits = mc_param("v4bits", 24), alllen = mc_param("alllen", 0), ownpton = mc_param("ownpton", 1);
+	int bits = mc_param("v4bits", 24), alllen = mc_param("alllen", 0), ownpton = mc_param("ownpton", 1), lens = mc_param("lens", 4);
 	uint64_t per = 1 << 14, lo = idx * per, hi = lo + per;
 	struct ntop_rep rp; memset(&rp, 0, sizeof rp);
 	uint64_t n_ok = 0, n_fail = 0, n_room = 0, n_addr = 0;
@@ -110,9 +110,9 @@ static void item_ntop4(uint64_t idx)
 		if (inet_pton(AF_INET, full, &back) != 1 || back.s_addr != in.s_addr) { mc_fail("harness:fmt4", "%s", full); return; }
 		if (alllen) for (int len = 0; len <= 17; len++) ntop_at(AF_INET, &in, full, flen, len, INET_ADDRSTRLEN, &rp, &n_ok, &n_fail, &n_room);
 		else { ntop_at(AF_INET, &in, full, flen, INET_ADDRSTRLEN, INET_ADDRSTRLEN, &rp, &n_ok, &n_fail, &n_room);
-		       ntop_at(AF_INET, &in, full, flen, flen + 1, INET_ADDRSTRLEN, &rp, &n_ok, &n_fail, &n_room);
 		       ntop_at(AF_INET, &in, full, flen, flen, INET_ADDRSTRLEN, &rp, &n_ok, &n_fail, &n_room);
-		       ntop_at(AF_INET, &in, full, flen, flen - 1, INET_ADDRSTRLEN, &rp, &n_ok, &n_fail, &n_room); }
+		       if (lens >= 4) { ntop_at(AF_INET, &in, full, flen, flen + 1, INET_ADDRSTRLEN, &rp, &n_ok, &n_fail, &n_room);
+		                        ntop_at(AF_INET, &in, full, flen, flen - 1, INET_ADDRSTRLEN, &rp, &n_ok, &n_fail, &n_room); } }
 		if (ownpton) {
 			struct in_addr *own = (struct in_addr *)blk(2, 4); own->s_addr = ~in.s_addr;
 			int r = evutil_inet_pton(AF_INET, xstr(full), own);
